@@ -40,6 +40,10 @@ func Alphabet() []Spec {
 		{"manage(A),manage(A)", func(e *Env) []*types.Transaction {
 			return []*types.Transaction{e.Manage(A, ManageKey, "add", "v1"), e.Manage(A, ManageKey, "add", "v2")}
 		}},
+		{"manage-apply(E)", func(e *Env) []*types.Transaction { return one(e.ManageApply(E, ManageKey, "add", "p1")) }},
+		{"manage-apply(A),manage-apply(A),A->D", func(e *Env) []*types.Transaction {
+			return []*types.Transaction{e.ManageApply(A, ManageKey, "add", "p2"), e.ManageApply(A, ManageKey, "delete", "p2"), e.Transfer(A, D, 12)}
+		}},
 		{"group[A->D,A->C]", func(e *Env) []*types.Transaction {
 			return e.Group([]int{A, A}, []int{D, C}, []int64{5, 6})
 		}},
